@@ -355,7 +355,9 @@ Definition record_of (tag : N) (st : lstep) : rstep :=
   | LStartWorkflow => ([mkW EWf RUNNING true tag], map (fun m => mk_recorded m 0 RUNNING tag) start_workflow_events)
   | LCompleteWorkflow s => ([mkW EWf s true tag], opt_recorded (complete_workflow_emit s) 0 s tag)
   | LStartStage i => ([mkW (EStage i) RUNNING true tag], map (fun m => mk_recorded m i RUNNING tag) start_stage_events)
-  | LCompleteStage i s => ([mkW (EStage i) s true tag], opt_recorded (complete_stage_emit s) i s tag)
+  | LCompleteStage i s =>
+      ([mkW (EStage i) s true tag],
+       if complete_stage_regular_store_records then opt_recorded (complete_stage_emit s) i s tag else [])
   | LCompleteStageErr i =>
       ([mkW (EStage i) TERMINAL true tag],
        if complete_stage_every_store_records then opt_recorded (complete_stage_emit TERMINAL) i TERMINAL tag else [])
@@ -365,7 +367,9 @@ Definition record_of (tag : N) (st : lstep) : rstep :=
        map (fun m => mk_recorded m i CANCELED tag) cancel_stage_events)
   | LStartTask t => ([mkW (ETask t) RUNNING true tag], map (fun m => mk_recorded m t RUNNING tag) start_task_events)
   | LSkipTaskAtStart t => ([mkW (ETask t) SKIPPED true tag], [])
-  | LCompleteTask t s => ([mkW (ETask t) s true tag], opt_recorded (complete_task_emit s) t s tag)
+  | LCompleteTask t s =>
+      ([mkW (ETask t) s true tag],
+       if complete_task_every_store_records then opt_recorded (complete_task_emit s) t s tag else [])
   | LForce x s => ([mkW x s false tag], [])
   end.
 
@@ -446,22 +450,28 @@ Definition tstep (s : tstate) (o : op) : tstate :=
           if same_db then mkT wk wk O (pending s) (published s ++ [e'])
           else mkT (mkDb (db_writes (durable s)) (db_log (durable s) ++ [e']) (db_ctr wk)) wk O (pending s) (published s ++ [e'])
       | S _ =>
-          if same_db
+          let pend := if record_defers_publication_in_scope then pending s ++ [e'] else pending s in
+          let pub := if record_defers_publication_in_scope then published s else published s ++ [e'] in
+          if same_db && record_joins_scope_connection
           then (* joins scope.connection: no commit; publication deferred *)
-               mkT (durable s) wk (depth s) (pending s ++ [e']) (published s)
+               mkT (durable s) wk (depth s) pend pub
+          else if same_db
+          then (* same connection, own commit: commits whatever the open block has written so far *)
+               mkT wk wk (depth s) pend pub
           else (* other database: appended and committed there; publication still deferred *)
-               mkT (mkDb (db_writes (durable s)) (db_log (durable s) ++ [e']) (db_ctr wk)) wk (depth s) (pending s ++ [e']) (published s)
+               mkT (mkDb (db_writes (durable s)) (db_log (durable s) ++ [e']) (db_ctr wk)) wk (depth s) pend pub
       end
   | OCommit =>
       match depth s with
       | O => mkT (working s) (working s) O (pending s) (published s)
-      | S O => mkT (working s) (working s) O [] (published s ++ pending s)
-      | S d => mkT (working s) (working s) d (pending s) (published s)
+      | S O => mkT (working s) (working s) O [] (if scope_commit_publishes_pending then published s ++ pending s else published s)
+      | S d => if scope_commit_outermost_only then mkT (working s) (working s) d (pending s) (published s)
+               else mkT (working s) (working s) d [] (published s ++ pending s)
       end
   | OAbort =>
       match depth s with
       | O => mkT (durable s) (durable s) O (pending s) (published s)
-      | S O => mkT (durable s) (durable s) O [] (published s)
+      | S O => mkT (durable s) (durable s) O [] (if scope_abort_drops_pending then published s else published s ++ pending s)
       | S d => mkT (durable s) (durable s) d (pending s) (published s)
       end
   | OCrash => mkT (durable s) (durable s) O [] (published s)
